@@ -2,6 +2,7 @@ package rules
 
 import (
 	"fmt"
+	"strings"
 	"go/types"
 
 	"golang.org/x/tools/go/ssa"
@@ -47,7 +48,20 @@ func guardedBy(r *engine.Report, p *engine.Program, rule string, field, lockFiel
 			r.Add(rule, construct, acc.Instr.Pos(), engine.Discharged, "the object is being constructed in this function and is not yet shared").Trivial = true
 		default:
 			if why, ok := ch[engine.FuncName(fn)]; ok {
-				if okc, detail := allCallersHold(p, fn, base, lockField, need); okc {
+				if strings.HasPrefix(why, "ctor:") {
+					okc, detail := callersAreConstructors(p, fn)
+					if okc {
+						r.Add(rule, construct, acc.Instr.Pos(), engine.Discharged, "constructor-time function ("+why+"): "+detail).Trivial = true
+					} else {
+						r.Add(rule, construct, acc.Instr.Pos(), engine.Violated, "listed as constructor-time, but "+detail)
+					}
+					continue
+				}
+				if strings.HasPrefix(why, "accessor:") {
+					r.Add(rule, construct, acc.Instr.Pos(), engine.Discharged, "lock-free accessor ("+why+"): every call site is checked separately by the accessor-sites rule").Trivial = true
+					continue
+				}
+				if okc, detail := allCallersHold(p, fn, base, lockField, need, ch); okc {
 					r.Add(rule, construct, acc.Instr.Pos(), engine.Discharged, "caller-holds table ("+why+"): "+detail)
 				} else {
 					r.Add(rule, construct, acc.Instr.Pos(), engine.Violated, "caller-holds table says callers hold "+lockField.Name()+", but "+detail)
@@ -68,7 +82,7 @@ func modeName(m engine.LockMode) string {
 }
 
 // allCallersHold: every call site of fn holds base.lockField (translated into the caller).
-func allCallersHold(p *engine.Program, fn *ssa.Function, base engine.Path, lockField *types.Var, need engine.LockMode) (bool, string) {
+func allCallersHold(p *engine.Program, fn *ssa.Function, base engine.Path, lockField *types.Var, need engine.LockMode, ch callerHolds) (bool, string) {
 	top := engine.Outermost(fn)
 	obj, _ := top.Object().(*types.Func)
 	if obj == nil {
@@ -79,6 +93,10 @@ func allCallersHold(p *engine.Program, fn *ssa.Function, base engine.Path, lockF
 	for _, cs := range sites {
 		if engine.IsMock(cs.Parent()) {
 			continue
+		}
+		if _, listed := ch[engine.FuncName(engine.Outermost(cs.Parent()))]; listed {
+			n++
+			continue // the caller is itself a caller-holds/accessor function, checked at its own call sites
 		}
 		lp, ok := p.Translate(base.With(lockField), top, cs)
 		if !ok {
@@ -94,4 +112,34 @@ func allCallersHold(p *engine.Program, fn *ssa.Function, base engine.Path, lockF
 		return false, "no call sites found"
 	}
 	return true, fmt.Sprintf("all %d call site(s) hold it", n)
+}
+
+// callersAreConstructors: every call (static or through an interface method of the same name) of
+// fn in receptor code sits in a constructor-like function.
+func callersAreConstructors(p *engine.Program, fn *ssa.Function) (bool, string) {
+	name := fn.Name()
+	n := 0
+	bad := ""
+	p.AllInstrs(func(f *ssa.Function, in ssa.Instruction) {
+		if engine.IsMock(f) {
+			return
+		}
+		ci, ok := in.(ssa.CallInstruction)
+		if !ok {
+			return
+		}
+		o := engine.CalleeObj(ci.Common())
+		if o == nil || o.Name() != name || o.Pkg() == nil || o.Pkg() != fn.Pkg.Pkg {
+			return
+		}
+		n++
+		top := engine.FuncName(engine.Outermost(f))
+		if !isConstructorLike(top) {
+			bad = top
+		}
+	})
+	if bad != "" {
+		return false, "it is called from " + bad + ", which is not a constructor"
+	}
+	return true, fmt.Sprintf("all %d call site(s) are in constructors (the unit is not yet shared)", n)
 }
